@@ -120,7 +120,7 @@ func (c *FnCtx) ghostIntrinsic(fr *Frame, st *State, fn *ssa.Function, args []*T
 		return []*Term{c.getCell(st, c.curFrame.iterByLoop[int(k)].count)}, true
 	case "verifHeight":
 		return []*Term{c.height(st, args[0])}, true
-	case "verifMapsSameExcept", "verifMapSameExceptKey", "verifMapSameExceptKeys", "verifOldHas", "verifOldGet", "verifOldLen", "verifOldTrueB", "verifGrowsB":
+	case "verifMapsSameExcept", "verifMapSameExceptKey", "verifMapSameExceptKeys", "verifOldHas", "verifOldGet", "verifOldLen", "verifOldTrueB", "verifGrowsB", "verifMapUnchanged":
 		return c.heapRelIntrinsic(st, fn.Name(), args), true
 	case "verifInfallibleWriter": // the writer is an in-memory buffer: Write never fails and accepts all bytes
 		return []*Term{ts.UF("infallibleWriter", SBool, args[0])}, true
@@ -967,6 +967,8 @@ func (c *FnCtx) heapRelIntrinsic(st *State, name string, args []*Term) []*Term {
 		return []*Term{ts.Quant("forall", k, ts.Implies(ts.And(conds...), body))}
 	case "verifOldHas":
 		return []*Term{ts.Select(ts.Select(dom0, args[0]), args[1])}
+	case "verifMapUnchanged": // map p has exactly the entries it had in the old state
+		return []*Term{ts.And(ts.Eq(ts.Select(dom1, args[0]), ts.Select(dom0, args[0])), ts.Eq(ts.Select(sel1, args[0]), ts.Select(sel0, args[0])), ts.Eq(ts.Select(len1, args[0]), ts.Select(len0, args[0])))}
 	case "verifGrowsB": // map[string]bool used as a set: every member of the old set is still a member
 		mhb := c.mapHeaps(st, types.NewMap(types.Typ[types.String], types.Typ[types.Bool]))
 		d0, s0 := c.heap(old, mhb.dom, mhb.sdom), c.heap(old, mhb.sel, mhb.ssel)
